@@ -1,4 +1,5 @@
-// Drives the generated Naunet::SetReferenceAbund / Naunet::Renorm (cvode, dense) against the SUNDIALS stand-in.
+// Drives the generated Naunet::SetReferenceAbund / Naunet::Renorm (cvode dense, or odeint with -DODEINT) against the stand-ins;
+// all cases run in ONE process, one after the other (a solver object per case).
 // usage: renorm_driver <cases.txt> <scratchdir>
 // case line:  tid  ref[NELEMENTS]  ab[NEQUATIONS]  nops  {op}*      op: 0 SetReferenceAbund(ref, 0) | 1 Renorm | 2 perturb
 #include <stdio.h>
@@ -8,7 +9,11 @@
 #include <math.h>
 #include "naunet.h"
 #include "naunet_physics.h"
+#ifdef ODEINT
+OdeintShimState g_oshim;
+#else
 ShimState g_shim;
+#endif
 int main(int argc, char **argv) {
     if (argc < 3) return 2;
     FILE *in = fopen(argv[1], "r"); if (!in) return 2;
